@@ -133,9 +133,10 @@ class Concrete(_Base):
         return k / denom
 
     def real_(self, name, lo=None, hi=None):
+        """exact rational in concrete mode (so that sums and comparisons of instants are exact)"""
         from fractions import Fraction
         v = self._get(name, lo if lo is not None else 0)
-        return float(Fraction(v)) if isinstance(v, str) else float(v)
+        return Fraction(v) if isinstance(v, str) else Fraction(v).limit_denominator(10**9)
 
     def choice(self, name, n):
         if self.presets and name in self.presets:
